@@ -35,9 +35,14 @@ func GenerateSequenceDiag(m *sysl.Module, p *SequenceDiagParam, logger *logrus.L
 	}
 
 	const color = "#LightBlue"
-	for boxname, appset := range v.Groupboxes {
+	boxnames := make([]string, 0, len(v.Groupboxes))
+	for boxname := range v.Groupboxes {
+		boxnames = append(boxnames, boxname)
+	}
+	sort.Strings(boxnames)
+	for _, boxname := range boxnames {
 		fmt.Fprintf(w, "box \"%s\" %s\n", boxname, color)
-		for key := range appset {
+		for _, key := range v.Groupboxes[boxname].ToSortedSlice() {
 			fmt.Fprintf(w, "\tparticipant %s\n", v.UniqueVarForAppName(key))
 		}
 		fmt.Fprintf(w, "end box\n")
